@@ -299,8 +299,14 @@ func (g *Gen) genString(hint string) string {
 	hostile := g.Rng.Float64() < g.Hostile
 	switch {
 	case (h == "s" || h == "n") && g.Rng.Float64() < NearRate:
+		if g.Rng.Intn(2) == 0 {
+			return g.pick(typePool) // a string that is a valid type used as a name (often in the same statement as the type)
+		}
 		return g.pick(nearIdents)
 	case h == "typ" && g.Rng.Float64() < NearRate:
+		if g.Rng.Intn(2) == 0 {
+			return g.pick(identPool) // and the other way round
+		}
 		return g.pick(nearTypes)
 	case h == "s" || h == "n":
 		if hostile {
@@ -649,4 +655,9 @@ func (pl *Plan) Apply(recv reflect.Value) (out reflect.Value, ok bool) {
 		}
 	}()
 	return recv.Method(pl.p.method).Call(pl.args)[0], true
+}
+
+// CrossKindStrings lists strings that are drawn both as names and as cast types by the generators
+func CrossKindStrings() []string {
+	return append(append(append(append([]string{}, identPool...), typePool...), nearIdents...), nearTypes...)
 }
